@@ -277,7 +277,7 @@ def check(run: Run) -> None:
                     run.finding("C01.c", f"assign:{rel}:{fd.qual if fd else ''}", "rank_dependency assigned outside a WiringInputRef initialiser",
                                 loc=f"{rel}:{tk.line}")
         want = {k[0]: k[1] for k in RANK_FREE}
-        run.sites(sum(found.values()), 14, "rank_dependency initialiser sites")
+        run.sites(sum(found.values()), 8, "rank_dependency initialiser sites")   # vacuity guard only: fewer sites than today is not an error in itself
         for rel, n in found.items():
             if rel not in want:
                 run.finding("C01.c", f"site:{rel}", f"{n} undeclared rank-free input site(s) in {rel}: a consumer there may be ranked before its producer",
@@ -565,7 +565,15 @@ def check(run: Run) -> None:
             raise AnalysisError("anchor-vanished", "C01.i: the computed rank_dependency of higher_order_input_refs was not found")
 
 
+    with run.obligation("C01.j", "K9", "the rank-free declaration of an input is part of the node's interning identity: an ordinary usage of a node definition is never merged "
+                        "into an instance whose same input was declared rank-free (the merged consumer would get no rank edge from its producer and be placed before it) "
+                        "(shared with C06.a: make_key fills every InputKey field from the input it describes)"):
+        from . import c06
+        R.share(run, "C01.j", c06, ["C06.a"])
+
+
 VARIANTS = [
+    {"id": "j-seed-C01-5-rank-free-flag-not-in-key", "expect": "C01.j", "edits": [{"file": WIRING, "find": "        .rank_dependency = input.rank_dependency,\n        .passive = input.source.arg_tag", "replace": "        .passive = input.source.arg_tag"}]},
     {"id": "i-pass-through-args-rank-free", "expect": "C01.i", "edits": [{"file": "include/hgraph/lib/std/operators/impl/higher_order_impl.h", "find": "                        inputs[index].arg_tag != WiringPortRef::ArgTag::Passive ||", "replace": "                        inputs[index].arg_tag == WiringPortRef::ArgTag::None ||"}]},
     {"id": "i-new-rank-free-site", "expect": "C01.i", "edits": [{"file": "include/hgraph/lib/std/operators/impl/higher_order_impl.h", "find": "                refs.push_back(WiringInputRef{\n                    .source = inputs[index],", "replace": "                if (index == 1) { refs.push_back(WiringInputRef{.source = inputs[index], .rank_dependency = false}); continue; }\n                refs.push_back(WiringInputRef{\n                    .source = inputs[index],"}]},
     {"id": "i-twin-enumerated-tags", "expect": None, "edits": [{"file": "include/hgraph/lib/std/operators/impl/higher_order_impl.h", "find": "                        inputs[index].arg_tag != WiringPortRef::ArgTag::Passive ||", "replace": "                        inputs[index].arg_tag == WiringPortRef::ArgTag::None || inputs[index].arg_tag == WiringPortRef::ArgTag::PassThrough ||\n                        inputs[index].arg_tag == WiringPortRef::ArgTag::NoKey ||"}]},
